@@ -1370,7 +1370,6 @@ func init() {
 					add("MatMul", mm[0], mm[1], "LT", "C", "reuse", api, map[string]interface{}{"ld": "C", "chain": 1})
 				}
 			}
-			add("Outer", []int{2}, []int{3}, "C", "C", "reuse", "method", map[string]interface{}{"ld": "T", "chain": 1})
 			type tm struct {
 				sa, sb []int
 				aa, ab []int
